@@ -6,6 +6,7 @@ CONSTANTS
  Pages = {0}
  TagDels = {1}
  SubjSel = {"same"}
+ Spells = {"dig", "both"}
  Script <- ScriptDD
  SerialPrefix = 2
  ObsPolicy = "end"
@@ -20,6 +21,7 @@ CONSTANTS
  ListConc = FALSE
  CowIndex = TRUE
  InvAfterDel = TRUE
+ NormKey = TRUE
 INIT GInit
 NEXT GNext
 INVARIANTS Emit
